@@ -104,4 +104,20 @@ def linDict (ts : List (FTerm α)) : List (Int × α) :=
 def linearizeF (num den : List (FTerm α)) : Except PyErr (ZF α) := ofData (linDict num) (linDict den)
 
 end Arith
+
+/-! ### how a (rational) power is split: `left = int(k)`, `weight_right = k - left` -/
+
+/-- Python's `int(k)` on a Fraction / float: truncation TOWARD ZERO (not the floor) -/
+def truncZ (k : Rat) : Int := if k < 0 then -((-k).floor) else k.floor
+
+/-- the term `v·x^k` as `linearize` sees it -/
+def ftermOf (k v : Rat) : FTerm Rat := ⟨truncZ k, k - (truncZ k : Int), v⟩
+
+/-- the terms of a polynomial with rational powers, in `terms()` order (ascending powers) -/
+def ftermsOf (l : List (Rat × Rat)) : List (FTerm Rat) :=
+  (l.mergeSort (fun a b => a.1 ≤ b.1)).map fun kv => ftermOf kv.1 kv.2
+
+/-- `filt.linearize()` of a filter given by its (power, coefficient) pairs with rational powers -/
+def linearizeQ (num den : List (Rat × Rat)) : Except PyErr (ZF Rat) := linearizeF (ftermsOf num) (ftermsOf den)
+
 end ALV.C05
